@@ -205,7 +205,7 @@ func (w *World) axiomsFor(terms []*Term) []string {
 		}
 	}
 	if len(subNames) > 0 {
-		out = append(out, "(declare-fun sub$inv (Int) Int)", "(declare-fun sub$tag (Int) Int)")
+		out = append(out, "(declare-fun subinv (Int) Int)", "(declare-fun subtag (Int) Int)")
 		ground := map[string]*Term{}
 		for _, t := range terms {
 			t.GroundApps(subNames, ground)
@@ -213,7 +213,7 @@ func (w *World) axiomsFor(terms []*Term) []string {
 		for _, k := range sortedKeys(ground) {
 			g := ground[k]
 			tag := sort.SearchStrings(subList, g.Name)
-			out = append(out, fmt.Sprintf("(assert (and (< %s 0) (= (sub$inv %s) %s) (= (sub$tag %s) %d)))", k, k, g.Args[0].String(), k, tag))
+			out = append(out, fmt.Sprintf("(assert (and (< %s 0) (= (subinv %s) %s) (= (subtag %s) %d)))", k, k, g.Args[0].String(), k, tag))
 		}
 	}
 	// inline-array storage: refs below every allocated and constant ref, injective per field
@@ -226,7 +226,7 @@ func (w *World) axiomsFor(terms []*Term) []string {
 		}
 	}
 	if len(arrNames) > 0 {
-		out = append(out, "(declare-fun arrref$inv (Int) Int)", "(declare-fun arrref$tag (Int) Int)")
+		out = append(out, "(declare-fun arrinv (Int) Int)", "(declare-fun arrtag (Int) Int)")
 		ground := map[string]*Term{}
 		for _, t := range terms {
 			t.GroundApps(arrNames, ground)
@@ -234,7 +234,7 @@ func (w *World) axiomsFor(terms []*Term) []string {
 		for _, k := range sortedKeys(ground) {
 			g := ground[k]
 			tag := sort.SearchStrings(arrList, g.Name)
-			out = append(out, fmt.Sprintf("(assert (and (< %s (- 1000)) (= (arrref$inv %s) %s) (= (arrref$tag %s) %d)))", k, k, g.Args[0].String(), k, tag))
+			out = append(out, fmt.Sprintf("(assert (and (< %s (- 1000)) (= (arrinv %s) %s) (= (arrtag %s) %d)))", k, k, g.Args[0].String(), k, tag))
 		}
 	}
 	// box/unbox
